@@ -14,14 +14,14 @@ import (
 func init() {
 	Drivers["C19"] = driveC19
 	Levels["C19"] = "exploration"
-	Rules["C19"] = "one run = one generated Schema VALUE (Go struct, nested to depth 3; every level with its own Properties and PropertyOrder: absent, empty, permutation, subset, superset with names that are no property, duplicates at any level; Extra keys, draft-07 dependencies union, $defs, items, allOf, patternProperties; also trees inferred by For from a type corpus) marshaled >=4 times under the canonical schedule and under 5 (quick) / 13 (thorough) further map-order schedules. Oracles: identical bytes across repetitions and schedules; on the token stream of the output the keys of every 'properties' object are exactly [listed names that exist, in list order] ++ [other names ascending]; a duplicate anywhere in the tree makes Marshal fail under every schedule. Non-trivial = some level has >=3 properties with >=1 listed and >=2 unlisted AND schema.go's remaining-keys loop saw a non-canonical order. Distinct = hash(canonical bytes or error, tree shape) x order-vector hash."
+	Rules["C19"] = "one run = one generated Schema VALUE (Go struct, nested to depth 3; every level with its own Properties and PropertyOrder: absent, empty, permutation, subset, superset with names that are no property, duplicates at any level; Extra keys (sometimes repeating a keyword: Marshal must refuse), names that differ only in case / space / normal form or contain commas, draft-07 dependencies union, $defs, items, allOf, patternProperties; also trees inferred by For from a type corpus) marshaled >=4 times (after the second, the caller overwrites the bytes MarshalJSON returned for up to 8 nodes) under the canonical schedule and under 5 (quick) / 13 (thorough) further map-order schedules. Oracles: identical bytes across repetitions and schedules; on the token stream of the output the keys of every 'properties' object are exactly [listed names that exist, in list order] ++ [other names ascending]; a duplicate anywhere in the tree makes Marshal fail under every schedule. Non-trivial = some level has >=3 properties with >=1 listed and >=2 unlisted AND schema.go's remaining-keys loop saw a non-canonical order. Distinct = hash(canonical bytes or error, tree shape) x order-vector hash."
 	Assumptions["C19"] = append([]string{
 		"the expected key order is computed from the property text (listed-that-exist in list order, then the rest ascending by Go string comparison) by a 10-line model, not from the implementation",
 		"bytes are compared per entry point (json.Marshal of the pointer); json.Marshal compacts MarshalJSON output, which is not part of the claim",
 	}, CommonAssumptions...)
 }
 
-var c19Names = []string{"a", "b", "c", "d", "e", "ab", "Z", "A", "Ab", "aB", "É", "a ", "e\u0301", "é", "a b", "0", "a\"", "a#", "x<y", "x=y", "a\\b", "\u2028"}
+var c19Names = []string{"a", "b", "c", "d", "e", "ab", "Z", "A", "Ab", "aB", "É", "a ", "e\u0301", "a,a", "a,b", "b,c", "é", "a b", "0", "a\"", "a#", "x<y", "x=y", "a\\b", "\u2028"}
 
 type c19gen struct {
 	arena  []string // PropertyOrder / Required lists are sub-slices of one array: each has spare capacity that runs into the next list
